@@ -6,45 +6,146 @@ from pathlib import Path
 
 sys.path.insert(0, str(Path(__file__).resolve().parents[1] / 'sched'))
 from prop import SchedProp  # noqa: E402
+from core import Infra  # noqa: E402
+
+
+# -- hand-written regression histories (run first on every check): one workflow, fixed op lists --------------
+_FLOW = '''[scheduler]
+    allow implicit tasks = True
+[scheduling]
+    cycling mode = integer
+    initial cycle point = 1
+    final cycle point = 3
+    runahead limit = P1
+    [[graph]]
+        P1 = """
+            a => b
+        """
+[runtime]
+    [[root]]
+        [[[simulation]]]
+            default run length = PT0S
+'''
+
+
+def _cmd(name, **args):
+    return {'op': 'cmd', 'name': name, 'args': args}
+
+
+def _job(task, sn=1, msgs=('started', 'succeeded')):
+    """submit result + job messages of one job"""
+    return [{'op': 'subres', 'task': task, 'ok': True, 'sn': sn}] + [
+        {'op': 'msg', 'task': task, 'msg': m, 'sn': sn, 'sev': 'INFO'} for m in msgs]
+
+
+_L = {'op': 'loop'}
+_STOP = _cmd('stop', mode='REQUEST(NOW)')
+_R = {'op': 'restart'}
+_CORPUS = {
+    # 1/a is queued (start-up), then held while the workflow is paused: the release after resume must skip it
+    'queued-then-held': [_cmd('pause'), _L, _cmd('hold', tasks=['1/a']), _cmd('resume'), _L, _L,
+                         _cmd('release', tasks=['1/a']), _L],
+    # hold of the not yet spawned 1/b: held when 1/a:succeeded spawns it, across a restart, until released
+    'future-hold': [_cmd('hold', tasks=['1/b']), _L] + _job('1/a') + [_L, _L, _L, _STOP, _L, _R, _L, _L,
+                                                                      _cmd('release', tasks=['1/b']), _L, _L],
+    # hold of the not yet spawned 2/b, restart before it spawns, then it spawns: held
+    'future-hold-restart': [_cmd('hold', tasks=['2/b']), _STOP, _L, _R, _L] + _job('2/a') + [_L, _L, _L],
+    # hold point 1: 2/a, 3/a held; 2/a released individually and run: the 2/b it spawns lies beyond the hold
+    # point and is held at once; restart keeps hold point and held flags; release_hold_point frees everything
+    'hold-point': [_cmd('set_hold_point', point='1'), _L] + _job('1/a') + [_L, _cmd('release', tasks=['2/a']), _L]
+                  + _job('2/a') + [_L, _L, _STOP, _L, _R, _L, _L, _cmd('release_hold_point'), _L, _L],
+}
 
 
 class C06(SchedProp):
     id = 'C06'
     props_modules = ['CylcModel.Props.C06']
     theorems = [
+        'CylcModel.C06.held_not_ready',
+        'CylcModel.C06.release_skips_held',
+        'CylcModel.C06.launch_only_in_main_loop',
+        'CylcModel.C06.held_never_prepared',
+        'CylcModel.C06.held_never_prepared_run',
+        'CylcModel.C06.hold_command_recorded',
+        'CylcModel.C06.hold_kept_until_released_or_removed',
+        'CylcModel.C06.future_hold',
+        'CylcModel.C06.hold_table_exact',
+        'CylcModel.C06.hold_point_command',
+        'CylcModel.C06.hold_persist',
+        'CylcModel.C06.hold_persist_partial',
+        'CylcModel.C06.hold_persist_counterexample',
     ]
-    statement_note = 'TODO'
+    statement_note = (
+        'proof over the Sched2 model (scheduler core + hold / release / hold point / stop / pause / clean restart), for '
+        'every instance graph (no well-formedness hypothesis is needed) and every state / op list: a pooled held instance '
+        'is launched by no operation (held_never_prepared for all states, held_never_prepared_run along runs; jobs are '
+        'launched only by the release step of a main loop, which takes queued, not held proxies); a hold command records '
+        'every id, the record stays until a release command or the removal of the instance, spawn_task holds a new proxy '
+        'exactly when its instance is recorded or lies beyond the hold point, and in every state of every run a pooled '
+        'proxy is held iff its instance is in tasks_to_hold (hold_table_exact, inductive invariant, one lemma per '
+        'primitive); a restart keeps the hold point, every recorded hold and every held flag. PARTIAL on one point: the '
+        'unrestricted "restart changes no held flag" (hold_persist_full) is false - restart re-applies the hold point, '
+        'so an instance beyond it that was released individually is held again (hold_persist_counterexample, a concrete '
+        'run; the real scheduler does the same: finding rehold-after-restart); proved instead: hold_persist (exact '
+        'characterisation: flag kept, or held because beyond the hold point) and hold_persist_partial (exact '
+        'preservation when no instance beyond the hold point was released individually). Missing in the frozen model: '
+        'manual trigger (the "or manually triggered" exemption has no counterpart), queue limits, the live-mode window '
+        'between queue release and job preparation (waiting_on_job_prep across main loops), kill (which holds), reload')
     technique = ('inductive invariants over op lists of a Lean scheduler model (Sched2) + trace correspondence with the '
                  'real Scheduler + a monitor judge on the observed traces')
     trusted = ['the stub job runner hands every proxy released for job preparation to the observer before the real '
                'prep_submit_task_jobs runs (observation key "prep")']
-    rule = 'TODO'
-    kinds = ('cmd',)
-    n_quick = 64
-    n_thorough = 640
+    rule = ('generated integer-cycling workflows (2-6 tasks, 1-3 recurrences, AND/OR and inter-cycle triggers, retries, '
+            'runahead P0-P3) driven through the real Scheduler by a seeded adaptive schedule of main loops, submit results, '
+            'job messages and commands: hold / release of pooled and of not yet spawned instances, set / release hold '
+            'point, stop (clean / now) followed by restart (up to 2), pause / resume, stop point; three cases in four use '
+            'a hold-centred command mix (a third of its hold commands aim at a task sitting in a queue), one of them with '
+            'job failures, submit failures and stale / duplicate messages, one in four the shared default mix; four '
+            'hand-written histories (queued-then-held, future hold, future hold across a restart, hold point) and the '
+            'witness of the recorded finding run first; non-trivial = distinct (commands used, '
+            'restart with holds in force, held-at-spawn, launch-count) class per distinct case')
+    kinds = ('cmd', 'cmdany')
+    n_quick = 48
+    n_thorough = 480
     # hold-centred command mix: more hold / release / hold-point commands, stops (for restarts) kept
     gen_opts = {
         'cmds': ['hold', 'release', 'hold', 'release', 'hold', 'set_hold_point', 'release_hold_point', 'set_hold_point',
                  'stop_clean', 'stop_now', 'pause', 'resume', 'stop_point'],
         'p_cmd': 0.15,
+        'p_hold_queued': 0.35,     # a third of the hold commands target a task sitting in a queue
         'restarts': [1, 2, 2],
     }
+
+    def corpus(self):
+        return [{'id': 'c06-' + k, 'flow': _FLOW, 'seed': 0, 'opts': {}, 'policy': {'restarts': 2}, 'ops': v, 'kind': 'cmd'}
+                for k, v in _CORPUS.items()]
+
+    def skip_case(self, inp, raw):
+        # the network server thread of a (re)starting Scheduler waits on a barrier with a time-out; on an
+        # overloaded machine that time-out fires: an infrastructure failure (exit 2), never a verdict
+        if 'error' in raw and 'BrokenBarrierError' in raw['error']:
+            raise Infra('scheduler server thread did not start within its time-out (overloaded machine?) '
+                        f'in case {inp.get("id")}')
+        return super().skip_case(inp, raw)
 
     def gen(self, tier, rng):
         import gen as sgen
         n = self.n_quick if tier == 'quick' else self.n_thorough
         base = rng.randrange(1 << 30)
         for k in range(n):
-            # every fourth case keeps the shared default command mix of the 'cmd' kind
+            # k % 4 = 0, 1: hold-centred command mix, every job completes its required outputs;
+            #         = 2: the same with failures, submit failures, missing outputs, stale / duplicate messages
+            #              (kind 'cmdany': held tasks with retries lined up, held failed tasks);
+            #         = 3: the shared default command mix of the 'cmd' kind
             opts = {} if k % 4 == 3 else self.gen_opts
-            yield sgen.gen_case(base + k, 'cmd', opts)
+            yield sgen.gen_case(base + k, 'cmdany' if k % 4 == 2 else 'cmd', opts)
 
     def classify(self, inp, obs):
         if isinstance(obs, dict):
             return 'crash'
         ops = inp.get('ops') or []
         names = [o.get('name') for o in ops if o.get('op') == 'cmd']
-        tags = []
+        tags = [inp.get('kind', 'cmd')]
         if any(n in ('hold',) for n in names):
             tags.append('hold')
         if 'release' in names:
